@@ -322,9 +322,20 @@ func addImport(f *ast.File, p string) {
 // a factory that consults two switches (off = the cgo back ends, as shipped). All code that
 // differs between the four build configurations is in these files, and all of it is compiled in.
 func encSeam(spec Spec, outDir string, overlay map[string]string, res *Result) error {
-	rename := map[string]string{"Encoder": "NativeEncoder", "New": "NewNative", "Option": "NativeOption", "WithCompressionLevel": "WithNativeCompressionLevel"}
+	base := map[string]string{"Encoder": "NativeEncoder", "New": "NewNative", "Option": "NativeOption", "WithCompressionLevel": "WithNativeCompressionLevel"}
 	for _, x := range []string{"lz4", "zstd"} {
 		dir := filepath.Join("pkg/goDB/encoder", x)
+		// every package-level name the pure-Go file declares gets a private twin (the cgo file may
+		// declare a helper of the same name); the four API names keep their fixed twins
+		rename := map[string]string{}
+		if src, err := os.ReadFile(filepath.Join(spec.Repo, dir, x+"_native.go")); err == nil {
+			for _, n := range topLevelNames(src) {
+				rename[n] = "verifNative_" + n
+			}
+		}
+		for k, v := range base {
+			rename[k] = v
+		}
 		for i, name := range []string{x + ".go", x + "_native.go"} {
 			relFile := filepath.Join(dir, name)
 			src, err := os.ReadFile(filepath.Join(spec.Repo, relFile))
@@ -337,7 +348,7 @@ func encSeam(spec Spec, outDir string, overlay map[string]string, res *Result) e
 				}
 				src = bytes.Replace(src, []byte(pr[0]), []byte(pr[1]), 1)
 			}
-			out, err := nativeCopy(relFile, src, rename, i == 0)
+			out, err := nativeCopy(relFile, src, rename, base, i == 0)
 			if err != nil {
 				return err
 			}
@@ -415,7 +426,7 @@ func verifNew_zstd(shipped func(...zstd.Option) *zstd.Encoder) Encoder {
 // nativeCopy renames the package-level identifiers of a back-end file and removes its build
 // constraint; with dropValues the const and var declarations are removed (they are shared with
 // the original file) together with imports that become unused.
-func nativeCopy(rel string, src []byte, rename map[string]string, dropValues bool) ([]byte, error) {
+func nativeCopy(rel string, src []byte, rename, base map[string]string, dropValues bool) ([]byte, error) {
 	var lines []string
 	for _, l := range strings.Split(string(src), "\n") {
 		if strings.HasPrefix(l, "//go:build") || strings.HasPrefix(l, "// +build") {
@@ -429,12 +440,49 @@ func nativeCopy(rel string, src []byte, rename map[string]string, dropValues boo
 		return nil, fmt.Errorf("parse %s: %w", rel, err)
 	}
 	if dropValues {
+		// the file shared by both builds: only the declarations of the API names (the Encoder and
+		// Option types, their methods, New, WithCompressionLevel) are duplicated for the pure-Go
+		// twin; constants, variables and helper functions stay shared with the original file
+		recvName := func(fd *ast.FuncDecl) string {
+			if fd.Recv == nil || len(fd.Recv.List) == 0 {
+				return ""
+			}
+			t := fd.Recv.List[0].Type
+			if st, ok := t.(*ast.StarExpr); ok {
+				t = st.X
+			}
+			if id, ok := t.(*ast.Ident); ok {
+				return id.Name
+			}
+			return ""
+		}
 		var decls []ast.Decl
 		for _, d := range f.Decls {
-			if gd, ok := d.(*ast.GenDecl); ok && (gd.Tok == token.CONST || gd.Tok == token.VAR) {
-				continue
+			switch x := d.(type) {
+			case *ast.GenDecl:
+				if x.Tok == token.IMPORT {
+					decls = append(decls, d)
+				} else if x.Tok == token.TYPE {
+					var specs []ast.Spec
+					for _, sp := range x.Specs {
+						if _, ok := base[sp.(*ast.TypeSpec).Name.Name]; ok {
+							specs = append(specs, sp)
+						}
+					}
+					if len(specs) > 0 {
+						x.Specs = specs
+						decls = append(decls, d)
+					}
+				}
+			case *ast.FuncDecl:
+				if rn := recvName(x); rn != "" {
+					if _, ok := base[rn]; ok {
+						decls = append(decls, d)
+					}
+				} else if _, ok := base[x.Name.Name]; ok {
+					decls = append(decls, d)
+				}
 			}
-			decls = append(decls, d)
 		}
 		f.Decls = decls
 	}
@@ -445,6 +493,24 @@ func nativeCopy(rel string, src []byte, rename map[string]string, dropValues boo
 			sels[se.Sel] = true
 			if id, ok := se.X.(*ast.Ident); ok {
 				used[id.Name] = true
+			}
+		}
+		return true
+	})
+	for _, d := range f.Decls {
+		if fd, ok := d.(*ast.FuncDecl); ok && fd.Recv != nil {
+			sels[fd.Name] = true // method names are not package-level names
+		}
+	}
+	ast.Inspect(f, func(n ast.Node) bool {
+		if kv, ok := n.(*ast.KeyValueExpr); ok {
+			if id, ok := kv.Key.(*ast.Ident); ok {
+				sels[id] = true // field names in composite literals
+			}
+		}
+		if fl, ok := n.(*ast.Field); ok {
+			for _, id := range fl.Names {
+				sels[id] = true // struct field and parameter names
 			}
 		}
 		return true
@@ -485,4 +551,35 @@ func nativeCopy(rel string, src []byte, rename map[string]string, dropValues boo
 		return nil, fmt.Errorf("print %s: %w", rel, err)
 	}
 	return buf.Bytes(), nil
+}
+
+// topLevelNames lists the package-level names (types, functions, variables, constants; no
+// methods) a source file declares.
+func topLevelNames(src []byte) []string {
+	fset := token.NewFileSet()
+	f, err := parser.ParseFile(fset, "x.go", src, 0)
+	if err != nil {
+		return nil
+	}
+	var out []string
+	for _, d := range f.Decls {
+		switch x := d.(type) {
+		case *ast.FuncDecl:
+			if x.Recv == nil {
+				out = append(out, x.Name.Name)
+			}
+		case *ast.GenDecl:
+			for _, sp := range x.Specs {
+				switch y := sp.(type) {
+				case *ast.TypeSpec:
+					out = append(out, y.Name.Name)
+				case *ast.ValueSpec:
+					for _, n := range y.Names {
+						out = append(out, n.Name)
+					}
+				}
+			}
+		}
+	}
+	return out
 }
